@@ -33,3 +33,15 @@ func TestXXH32Vectors(t *testing.T) {
 		}
 	}
 }
+
+func TestSolveZero(t *testing.T) {
+	for _, n := range []int{4, 8, 12, 20, 24, 28, 36, 65540, 1<<20 + 4} {
+		b := make([]byte, n)
+		for i := range b {
+			b[i] = byte(i*7 + n)
+		}
+		if !SolveZero(b) || XXH32(b, 0) != 0 {
+			t.Errorf("SolveZero(%d) failed: %08x", n, XXH32(b, 0))
+		}
+	}
+}
